@@ -226,4 +226,64 @@ CHECKS.update({
                  "observed as a 4 s (quick) / 12 s (thorough) deadline; vaa.Unmarshal is the decode oracle; p2p.Run is stubbed for the build."),
     },
 })
+CHECKS.update({
+    "C08": {
+        "families": ("alphwatch",),
+        "level": "proof",
+        "technique": "Lean 4 theorems over an executable model of isEventConfirmed/process/handleConfirmed/handleUnconfirmed/reobserve with the node's answers as oracle parameters (all pending sets, oracles, op sequences), tied by differential execution of the real watcher goroutines against a fake Alephium REST node",
+        "text": ("forwarded => (event index 0, emitted by the configured contract, sender = token bridge, block canonical in this call, "
+                 "height + cl <= current height, mainnet transfer waited max(cl,205) block intervals, attestation = reported token info) is proved "
+                 "for the polling path and the re-observation path; orphaned confirmed events are dropped and no fetched event is forwarded twice "
+                 "over any sequence of batches and height ticks (partition equality + counting invariant). Each run drives the real handleEvents / "
+                 "fetchEvents / handleObsvRequest against a scripted fake node (reorg flags flipping, stalls, API errors at any call, foreign "
+                 "contracts in the same tx, second-block events, boundary heights, young blocks) and compares full results and request logs with "
+                 "the model; the Spec is also evaluated on the implementation's own output."),
+        "note": ("Trusted: Lean kernel; fake node + generators + driver; ToWormholeMessage is an oracle here (C11); heights/timestamps assumed in "
+                 "the non-wrapping range (InRange); theorems are relative to the node's answers at that moment; wall clock handled by >=10 min "
+                 "margins, exact boundaries via isEventConfirmed directly; differential run samples inputs."),
+    },
+    "C09": {
+        "families": ("alphwatch",),
+        "level": "proof",
+        "technique": "Lean 4 theorems (induction on fuel / ticks, invariants) over the model of the count-then-pages loop, handleUnconfirmed, process and handleConfirmed with a consistent append-only node as hypothesis, tied by differential execution of the real fetchEvents+handleEvents pipeline against the fake node",
+        "text": ("pages partition [fromIndex, nextStart) exactly once for every page size and log growth, with at most count-fromIndex requests per "
+                 "tick (and the unrepaired exit test is proved to spin); an event is let through iff well-formed, and a malformed / foreign / "
+                 "bad-attestation event changes neither what its neighbours deliver nor what is forwarded, nor ends the watcher; a held "
+                 "token-bridge event survives every not-yet-final tick and is forwarded at the first tick at which its block is canonical and "
+                 "finality holds, exactly once with C08.at_most_once. Each run exercises GetTokenInfo on every answer shape, page conversion with "
+                 "32 kinds of damage, and the whole pipeline with page sizes 1..100, growth between count and page requests, 404/500 answers, "
+                 "reorg flags and drain ticks on which liveness is judged; request logs detect spinning."),
+        "note": ("Liveness is relative to ticks continuing and to the node answering consistently; the height poller's 'always resend' is checked "
+                 "on the implementation only. Trusted as C08."),
+    },
+    "C10": {
+        "families": ("evm",),
+        "level": "proof",
+        "technique": "Lean 4 theorems over event sequences (induction; heads are arbitrary naturals) on a hand model of the per-head loop, re-observation path and block poller; tied by differential execution of the real Watcher.Run against a scripted JSON-RPC node with barrier synchronisation, plus direct calls",
+        "text": ("forwarded => pending log delivered under the contract/topic subscription, receipt status 1 and same block hash at that head, "
+                 "height+conf <= head (conf = cl iff waitForConfirmations and not safe); orphaned/failed/re-mined are dropped; a message whose "
+                 "receipt stays good is forwarded exactly once at the first processed head >= height+conf for every head increment and never "
+                 "again; removal by timeout only at head >= height+conf+60 after every ready head's lookup failed transiently; re-observation "
+                 "forwards only contract/topic/status-1/depth-checked logs. Negation witnesses for the unrepaired order are in the Props file."),
+        "note": ("Trusted: Lean kernel; go-ethereum rpc/ethclient/abi (clientView observed, not proved); harness+driver; node honours the "
+                 "subscription filter (filter checked); NoOverflow hypothesis; liveness relative to node answers and heads being polled; safe "
+                 "heads / ErrNoResult not reachable through Run in the tie; scope note: MessageEventsForTransaction panics on a topic-less "
+                 "core-contract log / nil receipt / nil block number (modelled, agreed, unreachable with a standard node)."),
+    },
+    "C18": {
+        "families": ("supervisor",),
+        "level": "proof",
+        "technique": "Lean 4 invariant proof by induction over all interleavings of processor steps and runnable actions (token invariant: one running-or-announced goroutine per dn), tied by a deterministic differential run of the real processor functions plus model acceptance and direct Spec evaluation of traces of the real supervisor under -race",
+        "text": ("For every tree, failure kind/time and exit latency: no dn ever has two live instances (c18_mutex, unconditional on the repaired "
+                 "code; c18_mutex_partial + c18_mutex_witness show the unrepaired code needs exactly 'a Done runnable has returned before an "
+                 "ancestor is rescheduled'); a dead/cancelled node with live parent context and ready subtree is restarted by the next GC with "
+                 "bounded back-off; unexpected exits cancel the node, its subtree and its group; Done nodes are left alone; after the kill no "
+                 "processor step is enabled and nothing starts again. The model is compared with the real functions after every operation of "
+                 "generated sequences, and traces of scripted services under the real supervisor must be accepted by the model while seven Spec "
+                 "clauses are evaluated on the traces themselves."),
+        "note": ("PARTIAL: Go scheduling, the 1 ms ticker, back-off sleepers and channel hand-offs are modelled as interleaving nondeterminism, "
+                 "not verified; data races observed with -race only; panic capture assumed on; trusted: Lean kernel, harness + driver, "
+                 "cenkalti/backoff randomisation."),
+    },
+})
 NOT_BUILT = {}
